@@ -13,14 +13,17 @@ def run(res, pool, tier, seed):
     allb = set(POLYH + POLYG)
     if tier == "quick":
         jobs = [dict(module="MC_BodyBody.tla", tag="catalogue", invariants=INVS, timeout=1500, batch=40,
-                     constants=dict(GENK=set(), NGEN=1, S=2, BODIES1=allb, BODIES2=allb, T=2, SEED=sd, NSHARD=25)),
+                     constants=dict(SA=2, OFF=0, GENK=set(), NGEN=1, S=2, BODIES1=allb, BODIES2=allb, T=2, SEED=sd, NSHARD=25)),
                 dict(module="MC_BodyBody.tla", tag="general-hulls", invariants=INVS, timeout=1500, batch=40,
-                     constants=dict(GENK={5}, NGEN=8000, S=2, BODIES1=set(), BODIES2={"cube", "tet2", "hexObl"}, T=2, SEED=sd, NSHARD=20))]
+                     constants=dict(SA=2, OFF=0, GENK={5}, NGEN=8000, S=2, BODIES1=set(), BODIES2={"cube", "tet2", "hexObl"}, T=2, SEED=sd, NSHARD=20))]
     else:
         jobs = [dict(module="MC_BodyBody.tla", tag="catalogue", invariants=INVS, timeout=10000, batch=40,
-                     constants=dict(GENK=set(), NGEN=1, S=2, BODIES1=allb, BODIES2=allb, T=2, SEED=sd, NSHARD=3)),
+                     constants=dict(SA=2, OFF=0, GENK=set(), NGEN=1, S=2, BODIES1=allb, BODIES2=allb, T=2, SEED=sd, NSHARD=3)),
                 dict(module="MC_BodyBody.tla", tag="general-hulls", invariants=INVS, timeout=10000, batch=40,
-                     constants=dict(GENK={4, 5, 6}, NGEN=6000, S=2, BODIES1=set(), BODIES2={"cube", "tet2", "hexObl", "octa"}, T=2, SEED=sd, NSHARD=6))]
+                     constants=dict(SA=2, OFF=0, GENK={4, 5, 6}, NGEN=6000, S=2, BODIES1=set(), BODIES2={"cube", "tet2", "hexObl", "octa"}, T=2, SEED=sd, NSHARD=6))]
+    jobs.append(dict(module="MC_BodyBody.tla", tag="nested", invariants=INVS, timeout=3600, batch=40,
+                     constants=dict(SA=6, OFF=2, GENK=set(), NGEN=1, S=2, BODIES1={"cube", "box", "octa", "ppyr", "hprism"},
+                                    BODIES2={"cube", "tet2", "octa", "sq", "triObl", "hexObl", "prism"}, T=1, SEED=sd, NSHARD=6 if tier == "quick" else 1)))
     engine.run_jobs(res, jobs, pool)
     import traces
     traces.run_for(res, ["unit_tests", "driver"] if tier != "quick" else ["unit_tests"], {"C03"}, seed=seed + 2, nsessions=2500)
@@ -32,7 +35,7 @@ def replay_case(case, tag, rng, tier):
     out = {"mism": [], "skipped": {}, "calls": 0, "cls": "|".join(case["cls"]), "nontrivial": exp["k"] != "None"}
     for pose in common.poses_for((a, b, exp), rng, 1, s):
         num = common.num_for(rng, pose, (a, b))
-        la, lb = build(a, pose, num), build(b, pose, num)
+        la, lb = common.build_variant(a, pose, num, rng), common.build_variant(b, pose, num, rng)
         for form, f in (("func", lambda: G.intersection(la, lb)), ("swapped", lambda: G.intersection(lb, la))):
             val, exc = call(f)
             out["calls"] += 1
